@@ -452,4 +452,77 @@ theorem replay_param {g : Graph V} {p : Nat} {x : V} {n : Nat} (hp : g p = .para
       | paramData q => simp
       | artifact i => simp
 
+/-! ### the fine-grained locked system -/
+
+/-- invariant of the fine-grained locked system -/
+structure GInv {σ : Type} (s : GSys σ) : Prop where
+  mutex : ∀ t, (s.pc t).isCrit = true → s.lock = some t
+  atomic : ∀ t start tr, s.pc t = .crit start tr → s.g = tr.foldl (fun a f => f a) start
+
+theorem ginv {σ : Type} (g0 : σ) (s : GSys σ) (h : GExec g0 s) : GInv s := by
+  induction h with
+  | init => exact ⟨by intro t h; simp [GPc.isCrit] at h, by intro t start tr h; cases h⟩
+  | @step s s' _ hs ih =>
+    cases hs with
+    | request t hpc =>
+      refine ⟨?_, ?_⟩ <;> dsimp only
+      · intro u hu
+        by_cases hut : u = t
+        · subst hut; simp [GPc.isCrit] at hu
+        · rw [upd_ne _ _ hut] at hu; exact ih.mutex u hu
+      · intro u start tr hu
+        by_cases hut : u = t
+        · subst hut; simp at hu
+        · rw [upd_ne _ _ hut] at hu; exact ih.atomic u start tr hu
+    | acquire t hpc hlock =>
+      refine ⟨?_, ?_⟩ <;> dsimp only
+      · intro u hu
+        by_cases hut : u = t
+        · subst hut; rfl
+        · rw [upd_ne _ _ hut] at hu
+          have := ih.mutex u hu
+          rw [hlock] at this; cases this
+      · intro u start tr hu
+        by_cases hut : u = t
+        · subst hut
+          simp only [upd_same, GPc.crit.injEq] at hu
+          obtain ⟨rfl, rfl⟩ := hu
+          rfl
+        · rw [upd_ne _ _ hut] at hu
+          have := ih.mutex u (by rw [hu]; rfl)
+          rw [hlock] at this; cases this
+    | micro t start tr f hpc =>
+      have hlt := ih.mutex t (by rw [hpc]; rfl)
+      refine ⟨?_, ?_⟩ <;> dsimp only
+      · intro u hu
+        by_cases hut : u = t
+        · subst hut; exact hlt
+        · rw [upd_ne _ _ hut] at hu; exact ih.mutex u hu
+      · intro u start' tr' hu
+        by_cases hut : u = t
+        · subst hut
+          simp only [upd_same, GPc.crit.injEq] at hu
+          obtain ⟨rfl, rfl⟩ := hu
+          rw [List.foldl_append, ← ih.atomic u start tr hpc]
+          rfl
+        · -- another client in its critical section at the same time: excluded by the lock
+          rw [upd_ne _ _ hut] at hu
+          have := ih.mutex u (by rw [hu]; rfl)
+          rw [hlt] at this
+          exact absurd (Option.some.inj this).symm hut
+    | release t start tr hpc =>
+      have hlt := ih.mutex t (by rw [hpc]; rfl)
+      refine ⟨?_, ?_⟩ <;> dsimp only
+      · intro u hu
+        by_cases hut : u = t
+        · subst hut; simp [GPc.isCrit] at hu
+        · rw [upd_ne _ _ hut] at hu
+          have := ih.mutex u hu
+          rw [hlt] at this
+          exact absurd (Option.some.inj this).symm hut
+      · intro u start' tr' hu
+        by_cases hut : u = t
+        · subst hut; simp at hu
+        · rw [upd_ne _ _ hut] at hu; exact ih.atomic u start' tr' hu
+
 end PolyVerif.Linz
